@@ -577,15 +577,23 @@ pub fn expect(cfg: &Config, src: IpAddr, b: &[u8]) -> Expect {
         e.tolerated.push("qdcount-not-1");
         any = true;
     }
+    let mut normal_any = false;
     if p.has_sig {
-        // TSIG / SIG(0) processing is C13's business
+        // TSIG / SIG(0) processing is C13's business: what an otherwise acceptable signed request
+        // gets is not judged (NOTAUTH, REFUSED, ... or the normal answer), but the gates of the
+        // statement (denied source, EDNS version, unsupported opcode, unparsable body, no zone)
+        // hold for signed requests too
         e.tolerated.push("sig-record");
-        any = true;
+        tol_codes.push(9);
+        tol_codes.push(REFUSED);
+        normal_any = true;
     }
     match source_verdict(&cfg.deny, &cfg.allow, src) {
         Some(true) => {}
         Some(false) => {
-            if opcode == 0 {
+            // "the server accepts": a denied source is turned away whatever it asks for; judged for
+            // queries and updates (for unsupported opcodes NOTIMP is equally admissible)
+            if opcode == 0 || opcode == 5 {
                 e.gates.push("denied-source");
                 gate_codes.push(REFUSED);
             } else {
@@ -626,7 +634,9 @@ pub fn expect(cfg: &Config, src: IpAddr, b: &[u8]) -> Expect {
         set.add(*c);
     }
     if gate_codes.is_empty() {
-        if opcode == 0 && e.plain {
+        if normal_any {
+            set.any = true;
+        } else if opcode == 0 && e.plain {
             set.add(NOERROR);
             set.add(NXDOMAIN);
         } else {
